@@ -274,7 +274,8 @@ impl SA {
         let owner = self.owner;
         let cancel: Box<dyn FnOnce() + Send> =
             Box::new(move || ev(EvK::Cancelled { actor: idx, hook: Hook::OnRun, inv: 0 }));
-        let free = self.spec.on_run.get(self.run_inv as usize).map(|h| h.free).unwrap_or(false);
+        // (beyond its script an actor with free-running handlers idles free-running too: a bystander with no scheduling points)
+        let free = self.spec.on_run.get(self.run_inv as usize).map(|h| h.free).unwrap_or(self.spec.free_handlers);
         Controlled::new(
             owner,
             false,
